@@ -316,7 +316,7 @@ read options — returns the read-mask projection of exactly the message the cal
 successful Delete, `Get` of the same id finds nothing. -/
 theorem C01_read_your_writes (cfg : Cfg M K R) (h : EqRefl cfg.ops) (s : CState M R) (id : String) (msg : M)
     (wr : WriteReq M K) (ro : ReadReq M K) :
-    ((Coll.update cfg s id msg wr).1.err = none → (icptId cfg id = "" && wr.genEmptyID) = false →
+    ((Coll.update cfg s id msg wr).1.err = none → (idAbsent cfg id && wr.genEmptyID) = false →
       ∃ new, (Coll.update cfg s id msg wr).1.val = some new ∧
         Coll.get cfg (Coll.update cfg s id msg wr).2 id ro = some (cfg.ops.filter ro.readMask new)) ∧
     ((Coll.delete cfg s id wr).1.err = none → Coll.get cfg (Coll.delete cfg s id wr).2 id ro = none) := by
@@ -373,7 +373,7 @@ theorem C01_genid_usable_update (cfg : Cfg M K R) (h : EqRefl cfg.ops) (s : CSta
     (wr : WriteReq M K)
     (hidem : ∀ x, icptId cfg (icptId cfg x) = icptId cfg x)
     (hne : ∀ x, x ≠ "" → icptId cfg x ≠ "")
-    (hgen : icptId cfg id = "" ∧ wr.genEmptyID = true)
+    (hgen : idAbsent cfg id = true ∧ wr.genEmptyID = true)
     (hok : (Coll.update cfg s id msg wr).1.err = none)
     (msg2 : M) (wr2 : WriteReq M K) (hxa : wr2.expectAbsent = false)
     (hv : cfg.ops.validate (fieldUpdater cfg wr2) msg2 = none) :
@@ -394,7 +394,7 @@ theorem C01_genid_usable_update (cfg : Cfg M K R) (h : EqRefl cfg.ops) (s : CSta
   generalize (Coll.update cfg s id msg wr).2 = s1 at h5 ⊢
   have he := coll_update_eq cfg h s1 id' msg2 wr2
   rw [he.1]
-  have hg : (icptId cfg id' = "" && wr2.genEmptyID) = false := by simp [hfix, hne']
+  have hg : (idAbsent cfg id' && wr2.genEmptyID) = false := by simp [idAbsent, hfix, hne']
   cases hl : lookup s1.items id' with
   | none => rw [hl] at h5; simp at h5
   | some it =>
